@@ -25,17 +25,20 @@ CONFIG = {
     "timeout_quick": 600,
     "timeout_thorough": 3000,
     "assumptions": [
+        "ORACLE-ONLY CLAUSES (no theorem): byte identity of every reachable node (oracle fetches and compares; generated blobs <= 64 B, manifests < ~2 KB); the link kinds config/layers/blobs/manifests/subject (g_succ is a parameter of the theorems: the generator's edge list is compared with content.Successors on every generated graph, signature successors-differ, and every probe must be a dispatched successor); the actual reference STRING (TagB/TagE/PushReference events carry no reference: the model proves 'the effective reference is set to the root', the oracle resolves the real string, checks that a pre-existing reference is moved and that the source reference is not tagged as well when another destination reference was given); the link resolve -> MapRoot/platform -> copyGraph root is the harness's ground truth (expectedRoot), the model takes the mapped root as the configuration's root; plat_match is compared with platform.Match on architecture/OS matches and on variant/feature wants that no entry satisfies (generated index entries carry architecture and OS only)",
         "optional callbacks: which of PreCopy/PostCopy/OnCopySkipped/OnMounted/MountFrom (and FindSuccessors, MapRoot) are nil is chosen per run, including all nil = default options; a recorded trace then has no events for nil callbacks and is elaborated by Model/CopyOpt.step_opt (the invocation points of nil callbacks are inserted, an event of a nil callback is rejected); the *_any_callbacks theorems hold for every such choice",
         "ExtendedCopyGraph / ExtendedCopy: the roots above the node (generator's predecessor relation; findRoots itself is C03's) are the model's c_root :: c_xroots, dispatched together and sharing tracker, proxy and limiter; the final Tag of ExtendedCopy is checked by the oracle only",
-        "content.Successors (encoding/json decoding of the five manifest kinds) returns the generator's edge list: a parameter `g_succ` of the theorems; checked on every run by trace acceptance (only dispatched successors may be probed) and by dag.SelfTest",
+        "content.Successors (encoding/json decoding of the five manifest kinds) returns the generator's edge list: a parameter `g_succ` of the theorems; checked on every run by trace acceptance (only dispatched successors may be probed) and by dag.SelfTest on every generated graph (oracle signature successors-differ)",
         "standing hypothesis (explicit in the model): during the call the destination is written only by the call itself and never deletes; the source is immutable",
         "a destination accepts a push only for bytes matching the descriptor and the source serves the bytes its descriptor names (C05); byte identity is evaluated by the oracle on the real stores, not in the model",
-        "mt_consistent (hypothesis of C01_closure, needed for digest-keyed destinations): two descriptors with the same digest have the same non-foreign successors up to digest; C01_closure_refuted_without_mt_consistency is the F12 witness",
+        "RESTRICTION OF THE PROPERTY'S QUANTIFIER (known finding twin-digest-exists = F12): C01_closure / C01_copy_result assume mt_consistent -- descriptors with the same destination key (digest, for OCI layouts and for titled blobs in a file store) have the same non-foreign successors up to key. 'Same bytes under two media types' is therefore covered only when both descriptors are leaves (or the destination is descriptor-keyed: memory, registry). For a source graph in which a manifest's bytes are also reachable as a blob, Copy into a digest-keyed destination -- even an EMPTY one -- can return success with the manifest's sub-DAG missing: C01_closure_refuted_in_call (empty destination) and C01_closure_refuted_without_mt_consistency (pre-populated); the harness generates both (streams twinreach, twin) and the oracle matches the failures by mechanism (f12Explains), everything else stays closure-missing",
+        "file-store destination: descriptor-keyed except for blobs pushed with a title (org.opencontainers.image.title on the layer descriptor inside the manifest), for which Exists answers by digest, asymmetrically; the model's key is symmetric, so file-destination cases with a titled twin are judged by the oracle only (UNJUDGED for the correspondence, counted in input_distribution)",
+        "callbacks return nil or the injected error; a user PreCopy returning oras.SkipNode (documented API: 'the blob must exist in the target') is a caller promise the property does not cover: not generated, not modelled",
         "MapRoot is an opaque function in the model (prologue); WithTargetPlatform on a manifest list is modelled (CopyTop.select_manifest / plat_match = platform.SelectManifest / Match with strings abstracted to numbers, C01_platform_selection) and compared with the implementation on every platform case; platform selection on a single image manifest (platform read from the config blob) is not generated",
         "registry.Mounter destinations are modelled (MountFrom -> Mount per candidate -> mounted | skipped | fallback upload) and exercised through an in-harness Mounter wrapper (what remote.Repository implements), except a ReferencePusher root falling back inside Mount; status.Tracker single ownership, semaphore.Weighted and errgroup are modelled by their visible effect (per-node phase, active-task bound), not verified",
         "goroutine scheduling: theorems quantify over all interleavings of visible events accepted by the transition system; internal races are exercised (free-running goroutines with PRNG latencies/yields; controlled release orders under testing/synctest), not enumerated",
     ],
-    "level_text": "Coq theorems over every trace accepted by the copyGraph transition system (all graphs, all link-closed initial destinations, all K >= 1, all interleavings): successful return => every reachable node present and final destination = copy_result; Copy => destination reference resolves to the returned root (Tagger, ReferencePusher and Mounter destinations; root copied, already present or mounted -- the latter since the fix f0a2d59, the pre-fix model is refuted by a witness); F12 witness proved. Tied to copy.go by trace acceptance + final-state equality on generated runs and an independent oracle (existence, byte identity, tag).",
+    "level_text": "Coq theorems over every trace accepted by the copyGraph transition system (all mt_consistent graphs -- see assumptions: for digest-keyed destinations this excludes a manifest whose bytes also occur as a blob, known finding twin-digest-exists --, all link-closed initial destinations, all K >= 1, all interleavings): successful return => every reachable node present and final destination = copy_result; Copy => destination reference resolves to the returned root (Tagger, ReferencePusher and Mounter destinations; root copied, already present or mounted -- the latter since the fix f0a2d59, the pre-fix model is refuted by a witness); F12 witness proved. Tied to copy.go by trace acceptance + final-state equality on generated runs and an independent oracle (existence, byte identity, tag).",
     "level_note": "pairings exercised: memory / OCI layout / reopened OCI layout / file store / remote.Repository (over an in-process fake registry behind remote.Client, with real FetchReference, PushReference and cross-repository Mount) as source and as destination; in addition in-harness ReferenceFetcher/ReferencePusher/Mounter wrappers around the local stores; schedules: free-running goroutines with PRNG latencies/yields, plus controlled schedules under testing/synctest (every instrumented operation parks, a PRNG releases one parked operation at each quiescent point; several release orders per graph); MapRoot opaque in the model, platform selection on manifest lists modelled; byte identity by oracle only",
     "technique": "machine-checked proof in Coq (invariants over all accepted traces of a per-node-phase transition system) + constants regenerated from copy.go + trace-acceptance correspondence + independent oracle",
     "explanation": "every recorded event trace of Copy/CopyGraph must be a run of Model/CopySpec.v and the final destination must equal copy_result; the oracle checks existence + bytes of every reachable node and the tag with the generator's ground truth",
